@@ -115,8 +115,8 @@ Lemma find_index_split {B} (l : list (name * B)) k i j :
 Proof.
   revert i. induction l as [|[k' v'] l IH]; cbn; intros i; [discriminate|].
   destruct (N.eqb_spec k' k) as [->|Hne].
-  - intros [= <-]. exists [], v', l. cbn. split; auto. lia.
-  - intros H. apply IH in H as [a [v [b [-> ->]]]]. exists ((k', v') :: a), v, b. cbn. split; auto. lia.
+  - intros [= <-]. exists [], v', l. cbn. split; auto; lia.
+  - intros H. apply IH in H as [a [v [b [-> ->]]]]. exists ((k', v') :: a), v, b. cbn. split; auto; lia.
 Qed.
 
 Lemma find_index_None {B} (l : list (name * B)) k i : find_index l k i = None <-> ~ In k (map fst l).
@@ -147,12 +147,13 @@ Proof.
   - apply Nat.eqb_eq in E. assert (b = []) by (destruct b; cbn in *; [auto|lia]). subst b.
     intros [= <-]. rewrite removelast_app_single. exists v. rewrite Permutation_app_comm. reflexivity.
   - apply Nat.eqb_neq in E. destruct b' as [|y b'].
-    { cbn in Eb. injection Eb as <- <-. cbn in E. lia. }
-    cbn in Eb. injection Eb as <- ->. intros [= <-].
-    rewrite set_nth_app_mid. rewrite app_comm_cons, app_assoc, removelast_app_single.
-    exists v. rewrite app_comm_cons, app_assoc.
-    rewrite Permutation_app_comm. cbn. rewrite Permutation_middle. apply Permutation_app_head.
-    apply perm_swap.
+    { cbn in Eb. injection Eb as E1 E2. subst b. cbn in E. lia. }
+    cbn in Eb. injection Eb as E1 E2. subst y b. intros [= <-].
+    rewrite set_nth_app_mid.
+    replace (a ++ lastx :: b' ++ [lastx]) with ((a ++ lastx :: b') ++ [lastx]) by (now rewrite <- app_assoc).
+    rewrite removelast_app_single. exists v.
+    apply Permutation_sym. apply Permutation_cons_app.
+    apply Permutation_app_head. apply Permutation_cons_append.
 Qed.
 
 Lemma swap_remove_Some {B} (l : list (name * B)) k : In k (map fst l) -> swap_remove l k <> None.
@@ -245,7 +246,7 @@ Definition orel (P : node -> node -> Prop) (a b : option node) : Prop :=
   match a, b with Some x, Some y => P x y | None, None => True | _, _ => False end.
 Definition dropped (d : nat -> bool) (P : node -> node -> Prop) (ns ns' : list (option node)) : Prop :=
   forall m, if d m then getn ns' m = None else orel P (getn ns m) (getn ns' m).
-Definition nrel (P : node -> node -> Prop) ns ns' := dropped (fun _ => false) P ns ns'.
+Notation nrel P := (dropped (fun _ => false) P).
 
 Lemma orel_impl (P Q : node -> node -> Prop) a b : (forall x y, P x y -> Q x y) -> orel P a b -> orel Q a b.
 Proof. destruct a, b; cbn; auto. Qed.
@@ -368,10 +369,13 @@ Proof.
     intros i Hi. destruct (A1 i Hi) as [L D]. split; auto. now apply liveb_false.
 Qed.
 
+Lemma getn_nil n : getn [] n = None.
+Proof. destruct n; reflexivity. Qed.
+
 Lemma inv_empty u : Inv u empty_graph.
 Proof.
-  apply Inv_iff. constructor; constructor; cbn; try tauto; try constructor.
-  all: try (intros n nd; destruct n; discriminate).
-  all: try (intros n nd ? H; destruct n; discriminate).
-  - intros nm n. split; [tauto|]. intros [nd [H _]]. destruct n; discriminate.
+  assert (G : forall n, get_node empty_graph n = None) by (intros n; apply getn_nil).
+  constructor; cbn; try tauto; try (now constructor);
+    try (intros *; rewrite G; discriminate).
+  intros nm n. split; [tauto|]. intros [nd [H _]]. rewrite G in H. discriminate.
 Qed.
